@@ -1,6 +1,7 @@
 //! vcheck — property-based checks C01..C20 for saorsa-core.
 //!   vcheck run <ID> [--tier quick|thorough] [--seed N]
 //!   vcheck replay <file>
+//!   vcheck fuzz-one <ID> <sub> <raw input file>
 use vcheck::{engine, props};
 
 use engine::{Run, Tier};
@@ -34,69 +35,15 @@ fn main() {
     let env_seed = std::env::var("VERIF_SEED").ok().and_then(|s| s.trim().parse::<i64>().ok()).map(|v| v as u64);
     let env_tier = std::env::var("VERIF_TIER").ok();
     match args[1].as_str() {
-        "fdtest" => {
-            // diagnostic: which construction leaks file descriptors across cases?
-            let count = || std::fs::read_dir("/proc/self/fd").map(|d| d.count()).unwrap_or(0);
-            let mode = args.get(2).cloned().unwrap_or_default();
-            let f0 = count();
-            for i in 0..60u8 {
-                let rt = engine::paused_rt();
-                rt.block_on(async {
-                    use vcheck::memnet::*;
-                    if mode == "rt" {
-                        return;
-                    }
-                    let hub = Hub::new(1, 0);
-                    if mode == "th" {
-                        let tid = hex::encode([i; 32]);
-                        let th = std::sync::Arc::new(saorsa_core::transport_handle::TransportHandle::verif_new_mem(tid.clone(), tid.clone(), hub.clone(), std::time::Duration::from_secs(2)));
-                        if args.get(3).is_some() {
-                            let _ = th.start_network_listeners().await;
-                        }
-                        return;
-                    }
-                    if mode == "mgr-new" || mode == "mgr-new-shutdown" {
-                        let tid = hex::encode([i; 32]);
-                        let th = std::sync::Arc::new(saorsa_core::transport_handle::TransportHandle::verif_new_mem(tid.clone(), tid.clone(), hub.clone(), std::time::Duration::from_secs(2)));
-                        let mut cfg = saorsa_core::dht_network_manager::DhtNetworkConfig::default();
-                        cfg.local_peer_id = tid.clone();
-                        let m = saorsa_core::dht_network_manager::DhtNetworkManager::new(th, None, cfg).await.unwrap();
-                        if mode == "mgr-new-shutdown" {
-                            m.verif_core().read().await.signal_shutdown();
-                            tokio::time::sleep(std::time::Duration::from_secs(120)).await;
-                        }
-                        return;
-                    }
-                    if mode == "nostart" || mode == "start" || mode == "start-stop" {
-                        let tid = hex::encode([i; 32]);
-                        let th = std::sync::Arc::new(saorsa_core::transport_handle::TransportHandle::verif_new_mem(tid.clone(), tid.clone(), hub.clone(), std::time::Duration::from_secs(2)));
-                        hub.register(&tid, node_addr(0), Some(th.clone()), None);
-                        let _ = th.start_network_listeners().await;
-                        let mut cfg = saorsa_core::dht_network_manager::DhtNetworkConfig::default();
-                        cfg.local_peer_id = tid.clone();
-                        let m = std::sync::Arc::new(saorsa_core::dht_network_manager::DhtNetworkManager::new(th, None, cfg).await.unwrap());
-                        if mode != "nostart" {
-                            m.start().await.unwrap();
-                        }
-                        if mode == "start-stop" {
-                            let _ = tokio::time::timeout(std::time::Duration::from_secs(60), m.stop()).await;
-                        }
-                        return;
-                    }
-                    if mode == "core" {
-                        let e = saorsa_core::dht::core_engine::DhtCoreEngine::verif_new_log_only(saorsa_core::dht::core_engine::NodeId::from_bytes([i; 32])).unwrap();
-                        e.start_maintenance_tasks();
-                        return;
-                    }
-                    let n = add_node(&hub, [i; 32], node_addr(0), None, std::time::Duration::from_secs(2), 8).await.unwrap();
-                    if mode == "node+stop" {
-                        let _ = n.mgr.stop().await;
-                        let _ = n.th.stop().await;
-                    }
-                });
-                drop(rt);
-            }
-            println!("mode={mode} fds before={f0} after={}", count());
+        "fuzz-one" => {
+            // vcheck fuzz-one <ID> <sub> <file>: one raw fuzz input through the same entry point the libFuzzer targets use
+            let (id, sub, path) = (args.get(2).cloned().unwrap_or_else(|| usage()), args.get(3).cloned().unwrap_or_else(|| usage()), args.get(4).cloned().unwrap_or_else(|| usage()));
+            let data = std::fs::read(&path).unwrap_or_else(|e| {
+                eprintln!("cannot read {path}: {e}");
+                std::process::exit(2)
+            });
+            vcheck::fuzz::one(&id, &sub, &data);
+            println!("fuzz-one {id}/{sub} {path}: property held");
         }
         "list" => {
             for (id, _, _, _) in props::REGISTRY {
@@ -149,6 +96,39 @@ fn main() {
             let id = v.get("property").and_then(|x| x.as_str()).unwrap_or("").to_string();
             let sub = v.get("sub").and_then(|x| x.as_str()).unwrap_or("").to_string();
             let case = v.get("case").cloned().unwrap_or(serde_json::Value::Null);
+            if let Some(fsub) = sub.strip_prefix("fuzz-bytes/") {
+                // a libFuzzer input that killed the process (no verdict could be written): run it in a child process
+                let bytes = case.get("hex").and_then(|h| h.as_str()).and_then(|h| hex::decode(h).ok()).unwrap_or_else(|| {
+                    eprintln!("replay: no hex bytes in {path}");
+                    std::process::exit(2)
+                });
+                let tmp = format!("{}/work/replay-{}.bin", engine::VERIF_DIR, std::process::id());
+                let _ = std::fs::create_dir_all(format!("{}/work", engine::VERIF_DIR));
+                let _ = std::fs::write(&tmp, &bytes);
+                let st = std::process::Command::new(std::env::current_exe().unwrap_or_else(|_| "vcheck".into())).args(["fuzz-one", &id, fsub, &tmp]).status();
+                let _ = std::fs::remove_file(&tmp);
+                match st {
+                    Ok(st) if st.success() => {
+                        println!("replay {path}: property held");
+                        std::process::exit(0)
+                    }
+                    Ok(st) => {
+                        use std::os::unix::process::ExitStatusExt;
+                        if st.signal().is_some() || st.code() == Some(134) {
+                            println!("VIOLATION property={id} replay={path}");
+                            println!("  signature: {id}/{fsub}/process-killed-by-input");
+                            println!("  detail: child ended with {st}");
+                            std::process::exit(1)
+                        }
+                        eprintln!("replay: child ended with {st}");
+                        std::process::exit(2)
+                    }
+                    Err(e) => {
+                        eprintln!("replay: cannot start child: {e}");
+                        std::process::exit(2)
+                    }
+                }
+            }
             let Some((_, level, _, replayf)) = props::REGISTRY.iter().find(|(i, _, _, _)| *i == id) else {
                 eprintln!("unknown property {id}");
                 std::process::exit(2)
